@@ -207,7 +207,7 @@ Section Categorize.
     destruct (wr_dict_inv _ _ _ _ H4) as (p & kk & Ld & ->). clear H4.
     pose proof (rewrites_length _ _ _ _ _ R) as GL.
     destruct (rd_dict_inv _ _ _ RZ) as (p0 & kk0 & Ld0 & _).
-    eapply rw_alloc; [intros k []|].
+    apply rw_alloc with (p := lenc [S_uncategorized]) (kids := []); [intros k []|].
     eapply rw_write; [eapply data_of_current; eauto| | | |apply rw_refl].
     - rewrite <- RZ. apply rd_dict_agree. rewrite Ld0. now apply lookup_app_some.
     - intros k NO. apply zget_zset_other. congruence.
@@ -238,13 +238,13 @@ Section Tag.
     destruct (wr_dict_inv _ _ _ _ H3) as (p & kk & Ld & ->). clear H3.
     pose proof (rewrites_length _ _ _ _ _ R) as GL.
     destruct (rd_dict_inv _ _ _ RZ) as (p0 & kk0 & Ld0 & _).
-    eapply rw_alloc; [intros k []|].
+    apply rw_alloc with (p := lenc (matching re_search classes d)) (kids := []); [intros k []|].
     eapply rw_write; [eapply data_of_current; eauto| | | |apply rw_refl].
     - rewrite <- RZ. apply rd_dict_agree. rewrite Ld0. now apply lookup_app_some.
     - intros k NO. apply zget_zset_other. congruence.
     - intros k I. destruct (unzip_k_zset _ _ _ _ I) as [Old|E]; auto.
       inversion E; subst k. right. split; [right; lia|]. split.
-      + intros ->. rewrite lookup_alloc_new in Ld. apply lookup_lt in Ld0. lia.
+      + apply lookup_lt in Ld0. lia.
       + eexists. apply lookup_alloc_new.
   Qed.
 End Tag.
@@ -407,7 +407,7 @@ Proof.
   destruct (wr_dict_inv _ _ _ _ H3) as (p & kk & Ld & ->). clear H3.
   destruct (rd_data_inv _ _ _ RD) as (i & t & d & Le).
   destruct (rd_dict_inv _ _ _ RZ) as (p0 & kk0 & Ld0 & _ & _ & UK).
-  rewrite Ld in Ld0. inversion Ld0; subst p0 kk0. clear Ld0.
+  assert (UK' : unzip_k z = kk) by congruence. clear UK Ld0. rename UK' into UK.
   assert (Gd : length h0 <= dl) by (destruct F as (_ & _ & C); eapply (C e); eauto; cbn; auto).
   split; [|apply update_length].
   (* the substitutions store scalars: the members stay the same *)
